@@ -28,6 +28,52 @@ def firstRange (header : Str) (maxlen : Nat) : Option (Nat × Nat) :=
     | [s, e] => clip maxlen (rangeNums s e maxlen)
     | _ => none                                    -- ValueError on unpacking
 
+
+/-! ### `parse_date`: the instant an HTTP date names
+
+`email.utils.parsedate_tz` (library, a parameter: its ten fields are shipped by the harness) followed
+by the conversion of the broken-down time to an epoch.  The conversion is modelled as what it has to
+be: `calendar.timegm` of the fields minus the zone offset of the date — independent of the time zone
+the process runs in.  (`common_helpers.parse_date` gets there through `time.mktime(... isdst=0) -
+time.timezone`; the correspondence run executes it under several `TZ` settings.) -/
+
+/-- `(y-1)*365 + (y-1)//4 - (y-1)//100 + (y-1)//400` : `datetime._days_before_year` -/
+def daysBeforeYear (y : Int) : Int :=
+  let y1 := y - 1
+  y1 * 365 + y1 / 4 - y1 / 100 + y1 / 400
+
+def isLeap (y : Int) : Bool := y % 4 == 0 && (y % 100 != 0 || y % 400 == 0)
+
+/-- days in the year before the first of month `m` (1..12) -/
+def daysBeforeMonth (y m : Int) : Int :=
+  let t : Int := match m with
+    | 1 => 0 | 2 => 31 | 3 => 59 | 4 => 90 | 5 => 120 | 6 => 151 | 7 => 181 | 8 => 212
+    | 9 => 243 | 10 => 273 | 11 => 304 | _ => 334
+  t + (if m > 2 && isLeap y then 1 else 0)
+
+/-- `calendar.timegm((y, mo, d, h, mi, s, ...))`: `date(y, mo, 1).toordinal() - 719163 + d - 1` days, then
+hours, minutes, seconds added linearly (so out-of-range days/hours carry over); `ValueError`
+(`none`) when `date(y, mo, 1)` does not exist -/
+def timegm (y mo d h mi s : Int) : Option Int :=
+  if 1 ≤ y ∧ y ≤ 9999 ∧ 1 ≤ mo ∧ mo ≤ 12 then
+    let days := daysBeforeYear y + daysBeforeMonth y mo + 1 - 719163 + d - 1
+    some (((days * 24 + h) * 60 + mi) * 60 + s)
+  else none
+
+/-- the fields `parsedate_tz` returns that matter: date, time, zone offset in seconds (`None` → 0) -/
+structure DateFields where
+  y : Int
+  mo : Int
+  d : Int
+  h : Int
+  mi : Int
+  s : Int
+  tz : Int
+  deriving Repr, DecidableEq
+
+/-- `parse_date` after `parsedate_tz` succeeded -/
+def parseDate (f : DateFields) : Option Int := (timegm f.y f.mo f.d f.h f.mi f.s).map (· - f.tz)
+
 /-- `_file_iter_range(fp, offset, bytes_len, maxread)` after the `seek`: the chunks yielded. -/
 def fileIterRange (st : Stream) (bytesLen maxread : Nat) : List Bytes :=
   if h : 0 < bytesLen ∧ (st.read (min bytesLen maxread)).1 ≠ [] then
